@@ -147,9 +147,10 @@ def gen_cases(tier, seed):
                "block": bsel[0], "bsv": bsel[1], "workers": 4, "sched": "os", "sseed": 1}
     # regular files that report a length of 0 although they have content (the kernel's own: /proc, /proc/sys): "exactly the
     # source's bytes" still applies to them
-    for i, path in enumerate(["/proc/version", "/proc/filesystems", "/proc/sys/kernel/ostype", "/proc/version"] if os.path.exists("/proc/version") else []):
+    # (the last two take many read() calls to deliver: the kernel hands out such files a page of records at a time)
+    for i, path in enumerate([p_ for p_ in ["/proc/version", "/proc/filesystems", "/proc/sys/kernel/ostype", "/proc/version", "/proc/crypto", "/proc/kallsyms"] if os.path.exists(p_)]):
         for driver in ("parfile", "parblock"):
-            blk = [["--block-size", "4096"], ["--no-progress"], ["--block-size", "1MB"], ["--block-size", "7"]][i]
+            blk = [["--block-size", "4096"], ["--no-progress"], ["--block-size", "1MB"], ["--block-size", "7"], ["--block-size", "4096"], ["--no-progress"]][i]
             yield {"unsized": path, "fs": ["ext4", "tmpfs"][i % 2], "driver": driver, "block": blk[-1], "prior": ["absent", "longer"][i % 2],
                    "args": ["--driver", driver, "-w", str(r.choice([1, 4]))] + blk + ([] if i < 3 else ["--reflink", "never"]) + [path, "dst"]}
     # a file size limit (RLIMIT_FSIZE, with SIGXFSZ ignored so that the kernel answers EFBIG) below the length of a sparse source
@@ -200,6 +201,9 @@ def run_unsized(case, res):
             res["counters"]["nonzero-exit"] = 1
             return res
         want = open(case["unsized"], "rb").read()
+        if want != open(case["unsized"], "rb").read():
+            res["inconc"].append("unsized-source-not-stable")
+            return res
         got = open(os.path.join(sb.root, "dst"), "rb").read()
         if got != want:
             res["viol"].append({"sig": "%s:unsized:%s" % (case["driver"], "size" if len(got) != len(want) else "bytes"),
